@@ -208,6 +208,9 @@ func NewLoopWorld() (*LoopWorld, error) {
 func (lw *LoopWorld) storeHashes(ctx sdk.Context) map[string]string {
 	out := map[string]string{}
 	for _, n := range lw.kvStoreNames() {
+		if lw.noise != nil && lw.noise[n] {
+			continue // never compared; the ibc store grows with every packet (hashing it at every step is quadratic)
+		}
 		out[n] = lw.StoreKeyOf(ctx, n)
 	}
 	return out
@@ -1049,8 +1052,20 @@ func loopDeliverAll(rep *Report, inputs []loopInput, instances int) {
 		go func(wi int) {
 			defer wg.Done()
 			lw := lws[wi]
+			done := 0
 			for i := wi; i < len(inputs); i += len(lws) {
 				in := inputs[i]
+				if done > 0 && done%2000 == 0 {
+					// a fresh chain every 2000 deliveries: the block history (IAVL versions in the memory database, ibc
+					// receipts) does not have to grow with the size of the input list
+					n, err := NewLoopWorld()
+					if err != nil {
+						rep.HarnessError("real receive path: fixture: %v", err)
+						return
+					}
+					lw = n
+				}
+				done++
 				if len(in.Data) == 0 {
 					continue // MsgRecvPacket.ValidateBasic refuses empty data: it never reaches a callback
 				}
